@@ -277,6 +277,15 @@ func streamPacked(r *hx.Rng, refCheck bool, rt bool) {
 			}
 			lists = append(lists, l)
 		}
+		// payloads of exactly 126..130 bytes (the length prefix grows at 128) whatever the kind: one-byte varints,
+		// and for the fixed kinds the element counts that straddle 128 bytes
+		for _, n := range []int{126, 127, 128, 129, 130} {
+			l := make([]uint64, n)
+			for i := range l {
+				l[i] = uint64(i % 2)
+			}
+			lists = append(lists, l)
+		}
 		nr := 20
 		if thorough {
 			nr = 300
